@@ -376,13 +376,13 @@ class HTMLParser(object):
                 assert self.innerHTML
                 last = True
                 nodeName = self.innerHTML
+            if not last and node.namespace != self.tree.defaultNamespace:
+                continue
+
             # Check for conditions that should only happen in the innerHTML
             # case
             if nodeName in ("select", "colgroup", "head", "html"):
                 assert self.innerHTML
-
-            if not last and node.namespace != self.tree.defaultNamespace:
-                continue
 
             if nodeName in newModes:
                 new_phase = self.phases[newModes[nodeName]]
